@@ -12,6 +12,7 @@
 import NdnVerif.C08.LemmasDrain
 import NdnVerif.C08.LemmasFib
 import NdnVerif.C08.LemmasHash2
+import NdnVerif.C08.LemmasDnl
 namespace Ndn.C08
 open Ndn.C07 (Minimal OnPath prefixes)
 
@@ -162,12 +163,61 @@ theorem tree_minimal_spec (cfg : Cfg) (cap : Nat) (ops : List Op) :
   · exact (sameSet_closure_iff _ _).mpr h1
   · simp [sizesTrue, dumpOf, h2, h3, h4, C07.CsMap.keys]
 
-/-- **dnl_drains** (partial: the bound "expiry ≤ insertion time + lifetime" of the records is part of
-    the model's `dnlInsert`, not re-proved as an invariant here).  Once every dead-nonce record is
-    past its expiry at the next tick, each tick of the reaper removes `dnlBatch` = 100 records (all of
-    them if fewer), never adds one, and the premise persists: the list is empty after
-    ⌈length/100⌉ ticks. -/
-theorem dnl_drains_partial (s : St) (h : ∀ x ∈ s.dnl, x.exp < s.dnlNext) :
+/-- **dnl_drains.** In every reachable state every dead-nonce record expires exactly its configured
+    lifetime after its insertion (`exp = born + dnlLife`, `born ≤ now`), and whenever the forwarder is
+    at rest (the reaper's next tick lies in the future) a record that is still present is younger than
+    `lifetime + (⌊rank/100⌋ + 1)` ticks, where `rank` is the number of records that were in the list
+    when it was inserted (the reaper removes at most `dnlBatch` = 100 expired records per 100 ms tick,
+    oldest first).  So every record disappears at most that long after its insertion, for every
+    traffic history. -/
+theorem dnl_drains (cfg : Cfg) (cap : Nat) (ops : List Op) :
+    let s := run (init cfg cap) ops
+    (∀ x ∈ s.dnl, x.exp = x.born + cfg.dnlLife ∧ x.born ≤ s.now) ∧
+    (s.now < s.dnlNext → ∀ x ∈ s.dnl, s.now < x.born + cfg.dnlLife + period * (x.rank / dnlBatch + 1)) := by
+  intro s
+  obtain ⟨hi, hT⟩ := inv8_init cfg cap, invT_init cfg cap
+  have hd : DInv s := run_dinv hi hT (dinv_init cfg cap) ops
+  have hcfg : s.cfg = cfg := run_cfg (init cfg cap) ops
+  have hborn : ∀ x ∈ s.dnl, x.exp = x.born + cfg.dnlLife ∧ x.born ≤ s.now := by
+    intro x hx; have := hd.born x hx; rw [hcfg] at this; exact this
+  refine ⟨hborn, ?_⟩
+  intro hrest x hx
+  obtain ⟨i, hi', rfl⟩ := List.getElem_of_mem hx
+  have hr := hd.rank i hi'
+  obtain ⟨e1, _⟩ := hborn _ hx
+  simp only [ticksAfter] at hr
+  have hp := period_pos
+  -- at most rank/100 ticks have fired since the expiry
+  have hc : (s.dnlNext - 1 - s.dnl[i].exp) / period ≤ s.dnl[i].rank / dnlBatch := by
+    rw [Nat.le_div_iff_mul_le (by decide)]
+    rw [Nat.mul_comm]; omega
+  have hlt : s.dnlNext - 1 - s.dnl[i].exp < period * (s.dnl[i].rank / dnlBatch + 1) := by
+    have := Nat.lt_mul_div_succ (s.dnlNext - 1 - s.dnl[i].exp) hp
+    have h2 : period * ((s.dnlNext - 1 - s.dnl[i].exp) / period + 1) ≤ period * (s.dnl[i].rank / dnlBatch + 1) :=
+      Nat.mul_le_mul_left _ (by omega)
+    omega
+  omega
+
+example :
+    let s := run (init { nexthops := [(3, 10)], dnlLife := 50 } 4)
+      [Op.interest id 1 [⟨8, [97]⟩] false false (some 7) 1000 none none, Op.interest id 1 [⟨8, [97]⟩] false false (some 8) 1000 none none]
+    s.dnl.map (fun x => (x.nonce, x.exp, x.born, x.rank)) = [(7, 50, 0, 0)] := by decide
+
+/-- corollary: at rest, once every record's deadline has passed, the dead nonce list is empty -/
+theorem dnl_empty_at_quiescence (cfg : Cfg) (cap : Nat) (ops : List Op) :
+    let s := run (init cfg cap) ops
+    s.now < s.dnlNext →
+    (∀ x ∈ s.dnl, x.born + cfg.dnlLife + period * (x.rank / dnlBatch + 1) ≤ s.now) → s.dnl = [] := by
+  intro s hrest hall
+  apply List.eq_nil_iff_forall_not_mem.mpr
+  intro x hx
+  have h1 : s.now < x.born + cfg.dnlLife + period * (x.rank / dnlBatch + 1) := (dnl_drains cfg cap ops).2 hrest x hx
+  have h2 : x.born + cfg.dnlLife + period * (x.rank / dnlBatch + 1) ≤ s.now := hall x hx
+  omega
+
+/-- one tick of the reaper when every record is already past its expiry: `dnlBatch` records go (all
+    of them if fewer), none is added, and the premise persists -/
+theorem dnl_tick (s : St) (h : ∀ x ∈ s.dnl, x.exp < s.dnlNext) :
     (fireDnl s).dnl.length = s.dnl.length - dnlBatch ∧ (∀ x ∈ (fireDnl s).dnl, x.exp < (fireDnl s).dnlNext) := by
   have hall : ∀ (l : List Dn), (∀ x ∈ l, x.exp < s.dnlNext) →
       l.takeWhile (fun x => decide (x.exp < s.dnlNext)) = l := by
@@ -194,26 +244,29 @@ def ticks : Nat → St → St
   | 0, s => s
   | n + 1, s => ticks n (fireDnl s)
 
-theorem dnl_drains (s : St) (h : ∀ x ∈ s.dnl, x.exp < s.dnlNext) (n : Nat) :
+theorem dnl_ticks (s : St) (h : ∀ x ∈ s.dnl, x.exp < s.dnlNext) (n : Nat) :
     (ticks n s).dnl.length = s.dnl.length - dnlBatch * n := by
   induction n generalizing s with
   | zero => simp [ticks]
   | succ n ih =>
-    obtain ⟨h1, h2⟩ := dnl_drains_partial s h
+    obtain ⟨h1, h2⟩ := dnl_tick s h
     simp only [ticks]
     rw [ih (fireDnl s) h2, h1]
     simp only [Nat.mul_succ]; omega
 
-example : (ticks 1 { dnl := [⟨[], 1, 5⟩, ⟨[], 2, 7⟩], dnlNext := 10 }).dnl = [] := by decide
+example : (ticks 1 { dnl := [⟨[], 1, 5, 0, 0⟩, ⟨[], 2, 7, 0, 1⟩], dnlNext := 10 }).dnl = [] := by decide
 
 /-- **fib_tree_minimal.** After every history of InsertNextHop / RemoveNextHop / ClearNextHops /
     SetStrategy / UnSetStrategy the name-tree FIB holds exactly the nodes on paths to prefixes with a
     next hop or a strategy. -/
 theorem fib_tree_minimal (ops : List FibOp) :
     let f := ({} : FibTree).run ops
-    Minimal f.nodes f.liveList ∧ ∀ m, m ∈ f.liveList ↔ f.live m = true := by
+    Minimal f.nodes f.liveList ∧ (∀ m, m ∈ f.liveList ↔ f.live m = true) ∧
+    -- the fibPrefixes side table holds exactly the prefixes with a next hop, each once
+    f.pfx.Nodup ∧ (∀ m, m ∈ f.pfx ↔ (aget [] f.nh m).isEmpty = false) := by
   intro f
-  exact ⟨FibTree.run_inv FibTree.init_inv ops, fun m => FibTree.mem_liveList⟩
+  have hp := FibTree.run_pfx FibTree.init_pfx ops
+  exact ⟨FibTree.run_inv FibTree.init_inv ops, fun m => FibTree.mem_liveList, hp.nodup, hp.exact⟩
 
 example : (({} : FibTree).run [FibOp.ins [⟨8, [97]⟩, ⟨8, [98]⟩, ⟨8, [99]⟩] 1, FibOp.rem [⟨8, [97]⟩, ⟨8, [98]⟩, ⟨8, [99]⟩] 1]).nodes = [] := by
   decide
